@@ -218,23 +218,36 @@ theorem IsMinMax.of_perm {vs ws : List Val} {a b : Val} (p : vs.Perm ws) (h : Is
 theorem applyV_fin (m : Mob) (x : Rat) :
     m.applyV (.fin x) = (match m.apply x with | .ok y => .ok (.fin y) | .error e => .error e) := by
   unfold Mob.applyV Mob.apply Mob.eval
-  simp only [Val.mul, Val.add, Val.div]
-  split <;> rfl
+  by_cases hs : m.s = 0
+  · simp only [hs, ↓reduceIte, Val.mul, Val.add, Val.div, zero_mul, add_zero]
+    split <;> rfl
+  · simp only [hs, ↓reduceIte, Val.mul, Val.add, Val.div]
+    split <;> rfl
 
-/-- through an affine formula (`s = 0`) every non-finite value comes out as NaN: `0 * inf` -/
-theorem applyV_nonfinite {m : Mob} (hs : m.s = 0) {v : Val} (hv : ∀ x, v ≠ .fin x) :
-    m.applyV v = .ok .nan := by
+/-- through a formula without a variable term in the denominator (`s = 0`) and with a positive slope
+every non-finite value comes out unchanged: an infinity keeps its sign, NaN stays NaN -/
+theorem applyV_nonfinite {m : Mob} (hs : m.s = 0) (hpos : 0 < m.q * m.r) {v : Val}
+    (hv : ∀ x, v ≠ .fin x) : m.applyV v = .ok v := by
   unfold Mob.applyV
-  rw [hs]
-  cases v with
-  | fin x => exact absurd rfl (hv x)
-  | nan => simp [Val.mul, Val.add, Val.div]
-  | posInf =>
-    simp only [Val.mul, Val.infTimes, ↓reduceIte, Val.add]
-    split <;> simp [Val.div]
-  | negInf =>
-    simp only [Val.mul, Val.infTimes, ↓reduceIte, Val.add]
-    split <;> simp [Val.div]
+  simp only [hs, ↓reduceIte]
+  have hr : m.r ≠ 0 := by intro h; rw [h] at hpos; simp at hpos
+  have hq : m.q ≠ 0 := by intro h; rw [h] at hpos; simp at hpos
+  rcases pos_and_pos_or_neg_and_neg_of_mul_pos hpos with ⟨h1, h2⟩ | ⟨h1, h2⟩
+  · cases v with
+    | fin x => exact absurd rfl (hv x)
+    | nan => simp [Val.mul, Val.add, Val.div, hr]
+    | posInf => simp [Val.mul, Val.add, Val.div, Val.infTimes, hr, hq, h1, h2]
+    | negInf => simp [Val.mul, Val.add, Val.div, Val.infTimes, hr, hq, h1, h2]
+  · have n1 : ¬ (0 < m.q) := not_lt.mpr (le_of_lt h1)
+    have n2 : ¬ (0 < m.r) := not_lt.mpr (le_of_lt h2)
+    cases v with
+    | fin x => exact absurd rfl (hv x)
+    | nan => simp [Val.mul, Val.add, Val.div, hr]
+    | posInf => simp [Val.mul, Val.add, Val.div, Val.infTimes, hr, hq, n1, n2]
+    | negInf => simp [Val.mul, Val.add, Val.div, Val.infTimes, hr, hq, n1, n2]
+
+theorem _root_.Barril.UnitRow.WF.from_pos {w : UnitRow} (h : w.WF) : 0 < w.fromBase.q * w.fromBase.r :=
+  mul_pos_iff.mpr (div_pos_iff.mp h.from_slope_pos)
 
 /-- the hypotheses on a unit table: every row well-formed (`UnitRow.wf`, the C01 table theorem) and
 of the modelled shape (`UnitRow.valShape`, the C12 table theorem) -/
@@ -279,19 +292,17 @@ theorem convRowsV_fin {a b : UnitRow} (ha : a.WF) (hb : b.WF) (sa : a.valShape =
   simp only
   rw [fromBaseV_fin hb sb]
 
-/-- a non-finite value: untouched when both sides are `identity`, NaN as soon as one formula is
-evaluated -/
+/-- a non-finite value goes through the conversion of two well-formed rows unchanged -/
 theorem convRowsV_nonfinite {a b : UnitRow} (ha : a.WF) (hb : b.WF) {v : Val} (hv : ∀ x, v ≠ .fin x) :
-    convRowsV a b v = .ok (if a.hasConvTo || b.hasConvFrom then .nan else v) := by
+    convRowsV a b v = .ok v := by
   unfold convRowsV toBaseV fromBaseV
   simp only [ha.ok, hb.ok, Bool.and_self, Bool.not_true, Bool.false_eq_true, ↓reduceIte]
-  cases h1 : a.hasConvTo <;> cases h2 : b.hasConvFrom <;> simp only [↓reduceIte, Bool.false_eq_true,
-    Bool.or_self, Bool.or_true, Bool.or_false]
-  · rw [applyV_nonfinite hb.fs hv]
-  · rw [applyV_nonfinite ha.ts hv]
-  · rw [applyV_nonfinite ha.ts hv]
+  cases h1 : a.hasConvTo <;> cases h2 : b.hasConvFrom <;> simp only [↓reduceIte, Bool.false_eq_true]
+  · rw [applyV_nonfinite hb.fs hb.from_pos hv]
+  · rw [applyV_nonfinite ha.ts ha.pos hv]
+  · rw [applyV_nonfinite ha.ts ha.pos hv]
     simp only
-    rw [applyV_nonfinite hb.fs (by intro x h; cases h)]
+    rw [applyV_nonfinite hb.fs hb.from_pos hv]
 
 /-! ### the limit check is convex and rejects NaN -/
 
@@ -385,20 +396,19 @@ theorem checkLimits_convex {c : CatInfo} {a v b : Val} (ha : checkLimits c a = .
     · simp only [hx, ↓reduceIte] at this ⊢; exact Val.lt_of_le_of_lt hvb this
 
 /-! ### the conversion to the default unit: it fails for every value, or it is a strictly increasing
-map on the finite values which sends the non-finite ones all to themselves or all to NaN -/
+map on the finite values which leaves the non-finite ones as they are -/
 
 inductive ConvShape (g : Reg) (c : CatInfo) (unit : Sym) (this : UnitRow) : Prop
   | fails (e : ErrKind) (h : ∀ v, convToDefault g c unit this v = .error e)
   | works (f : Rat → Rat) (mono : ∀ x y, x < y → f x < f y)
       (hfin : ∀ x, convToDefault g c unit this (.fin x) = .ok (.fin (f x)))
-      (hnf : (∀ v, (∀ x, v ≠ .fin x) → convToDefault g c unit this v = .ok v)
-        ∨ (∀ v, (∀ x, v ≠ .fin x) → convToDefault g c unit this v = .ok .nan))
+      (hnf : ∀ v, (∀ x, v ≠ .fin x) → convToDefault g c unit this v = .ok v)
 
 theorem convShape {g : Reg} (hg : RowsOK g.units) (c : CatInfo) (unit : Sym) {this : UnitRow}
     (ht : this ∈ g.units) : ConvShape g c unit this := by
   cases hu : unit == c.defaultUnit with
   | true =>
-    refine .works id (fun _ _ h => h) ?_ (Or.inl ?_) <;> intros <;> simp [convToDefault, hu]
+    refine .works id (fun _ _ h => h) ?_ ?_ <;> intros <;> simp [convToDefault, hu]
   | false =>
     cases hi : g.db.getInfo c.qtype c.defaultUnit true with
     | error e => exact .fails e (by intro v; simp [convToDefault, hu, hi])
@@ -408,13 +418,8 @@ theorem convShape {g : Reg} (hg : RowsOK g.units) (c : CatInfo) (unit : Sym) {th
       obtain ⟨wo, so⟩ := hg other ho
       refine .works (convVal this other) (fun _ _ h => convVal_strictMono wt wo h) ?_ ?_
       · intro x; simp [convToDefault, hu, hi, convRowsV_fin wt wo st so]
-      · cases hc : (this.hasConvTo || other.hasConvFrom) with
-        | true =>
-          right; intro v hv
-          simp [convToDefault, hu, hi, convRowsV_nonfinite wt wo hv, hc]
-        | false =>
-          left; intro v hv
-          simp [convToDefault, hu, hi, convRowsV_nonfinite wt wo hv, hc]
+      · intro v hv
+        simp [convToDefault, hu, hi, convRowsV_nonfinite wt wo hv]
 
 theorem checkValue_simple {g : Reg} {c : CatInfo} {unit : Sym} {this : UnitRow} (hl : c.limited = true)
     (v : Val) : checkValue g (.simple c unit this) v =
@@ -448,34 +453,16 @@ theorem checkValue_between {g : Reg} (hg : RowsOK g.units) {c : CatInfo} {unit :
   rw [checkValue_simple hl] at ha hb ⊢
   rcases convShape hg c unit ht with ⟨e, h⟩ | ⟨f, mono, hfin, hnf⟩
   · rw [h a] at ha; cases ha
-  · rcases hnf with hnf | hnf
-    · -- the conversion is `liftV f`
-      have key : ∀ w, convToDefault g c unit this w = .ok (liftV f w) := by
-        intro w
-        cases w with
-        | fin x => exact hfin x
-        | posInf => exact hnf _ (by intro x h; cases h)
-        | negInf => exact hnf _ (by intro x h; cases h)
-        | nan => exact hnf _ (by intro x h; cases h)
-      rw [key] at ha hb ⊢
-      exact checkLimits_convex ha hb (liftV_mono mono hav) (liftV_mono mono hvb)
-    · -- non-finite values become NaN: accepted values are finite
-      have finite_of_ok : ∀ w, (match convToDefault g c unit this w with
-          | .error e => (.error (.other e) : Except VErr Unit)
-          | .ok v' => checkLimits c v') = .ok () → ∃ x, w = .fin x := by
-        intro w hw
-        cases w with
-        | fin x => exact ⟨x, rfl⟩
-        | posInf => rw [hnf _ (by intro x h; cases h)] at hw; exact absurd hw (checkLimits_nan hl)
-        | negInf => rw [hnf _ (by intro x h; cases h)] at hw; exact absurd hw (checkLimits_nan hl)
-        | nan => rw [hnf _ (by intro x h; cases h)] at hw; exact absurd hw (checkLimits_nan hl)
-      obtain ⟨xa, rfl⟩ := finite_of_ok a ha
-      obtain ⟨xb, rfl⟩ := finite_of_ok b hb
-      obtain ⟨xv, rfl⟩ := Val.fin_of_between hav hvb
-      rw [hfin] at ha hb ⊢
-      have h1 : Val.le (.fin (f xa)) (.fin (f xv)) = true := liftV_mono (f := f) mono hav
-      have h2 : Val.le (.fin (f xv)) (.fin (f xb)) = true := liftV_mono (f := f) mono hvb
-      exact checkLimits_convex ha hb h1 h2
+  · -- the conversion is `liftV f`
+    have key : ∀ w, convToDefault g c unit this w = .ok (liftV f w) := by
+      intro w
+      cases w with
+      | fin x => exact hfin x
+      | posInf => exact hnf _ (by intro x h; cases h)
+      | negInf => exact hnf _ (by intro x h; cases h)
+      | nan => exact hnf _ (by intro x h; cases h)
+    rw [key] at ha hb ⊢
+    exact checkLimits_convex ha hb (liftV_mono mono hav) (liftV_mono mono hvb)
 
 theorem fixValidUnits_mem {g : Reg} {qunits : List Sym} : ∀ {vs r : List Sym},
     fixValidUnits g qunits vs = .ok r → ∀ u ∈ r, u ∈ qunits := by
